@@ -69,8 +69,9 @@ DefectKinds == {"none",
   "dup_global"}                                            \* hostname twice at the top level
 (* defects that need the global hostname to be absent / present are expressed by host *)
 
-(* stat: "named" = the table is a top-level block referenced as &tbl (modules.md), "inline" = it is *)
-(* defined where it is used (modifiers/envelope.md: replace_rcpt static { ... })                    *)
+(* stat: "named" = the table is a top-level block referenced as &tbl (modules.md), "unnamed" = a    *)
+(* top-level block without a name, referenced by the module name, "inline" = it is defined where it *)
+(* is used (modifiers/envelope.md: replace_rcpt static { ... })                                     *)
 Row(tab, host, debug, smtp, dkim, stat, static, defect) ==
   [tab |-> tab, host |-> host, debug |-> debug, smtp |-> smtp, dkim |-> dkim, stat |-> stat, static |-> static,
    defect |-> defect]
@@ -91,7 +92,10 @@ GlobalLines(i) ==
   Extra(i, {"dup_global"}, "hostname second.example.org")
 StaticBody(i) == EntryLines(i.static) \o
                  Extra(i, {"static_unknown"}, "    bogus 1") \o Extra(i, {"static_badvalue"}, "    entry lonely")
-StaticLines(i) == IF i.stat = "named" THEN <<"table.static tbl {">> \o StaticBody(i) \o <<"}">> ELSE <<>>
+StaticLines(i) == CASE i.stat = "named" -> <<"table.static tbl {">> \o StaticBody(i) \o <<"}">>
+                    \* modules.md: "If config_block_name is omitted, it will be the same as module_name"
+                    [] i.stat = "unnamed" -> <<"table.static {">> \o StaticBody(i) \o <<"}">>
+                    [] OTHER -> <<>>
 (* smtp-pipeline.md: "define the block of checks at the top level as "checks" module and reference it *)
 (* using & syntax"                                                                                  *)
 RECURSIVE Indent(_)
@@ -118,6 +122,7 @@ EndpLines(i) ==
     "    check &inbound",
     "    modify {">> \o
   (IF i.stat = "named" THEN <<"        replace_rcpt &tbl">>
+   ELSE IF i.stat = "unnamed" THEN <<"        replace_rcpt &table.static">>
    ELSE <<"        replace_rcpt static {">> \o Indent(Indent(StaticBody(i))) \o <<"        }">>) \o
   <<"    }", "}">>
 AllLines(i) == GlobalLines(i) \o StaticLines(i) \o DkimLines(i) \o SmtpLines(i) \o SpareLines(i) \o EndpLines(i)
@@ -169,7 +174,7 @@ FieldVal(i, opts, defaults, f, devs) ==
   ELSE IF f = "submission_timeout" /\ "SubmissionTimeoutDefault" \in devs THEN "300000"
   ELSE IF defaults[f] = "<global>" THEN GlobalVal(i, f) ELSE defaults[f]
 (* static.md: "If the same key is used multiple times, the last one takes effect." *)
-Keys(i) == IF i.stat = "named" THEN {i.static[k][1] : k \in 1..Len(i.static)} \cup {"absent"} ELSE {}
+Keys(i) == IF i.stat \in {"named", "unnamed"} THEN {i.static[k][1] : k \in 1..Len(i.static)} \cup {"absent"} ELSE {}
 LookupOf(i, key) ==
   LET ks == {k \in 1..Len(i.static) : i.static[k][1] = key} IN
   IF ks = {} THEN "<none>" ELSE i.static[CHOOSE k \in ks : \A j \in ks : j <= k][2]
@@ -224,8 +229,8 @@ InSmtp == \E h \in Hosts, d \in Debugs, s \in Subsets1(SmtpOpts) :
             in = Row("smtp", h, d, s, <<>>, "inline", <<<<"k1", "v1">>>>, "none")
 InDkim == \E h \in {"mx.example.org"}, d \in Debugs, s \in Subsets1(DkimOpts) :
             in = Row("dkim", h, d, <<>>, s, "inline", <<<<"k1", "v1">>>>, "none")
-InStatic == \E st \in Statics, d \in {"none", "static_unknown", "static_badvalue", "dup_global"} :
-              in = Row("static", "mx.example.org", "unset", <<>>, <<>>, "named", st, d)
+InStatic == \E st \in Statics, d \in {"none", "static_unknown", "static_badvalue", "dup_global"}, form \in {"named", "unnamed"} :
+              in = Row("static", "mx.example.org", "unset", <<>>, <<>>, form, st, d)
 InDefect == \E k \in DefectKinds \ {"none"}, h \in Hosts :
               (k = "dup_global" => h # "") /\
               in = Row("defect", h, "unset", IF h = "" THEN <<SmtpOpts[2]>> ELSE <<>>, <<>>, "inline", <<<<"k1", "v1">>>>, k)
